@@ -239,7 +239,7 @@ prop("C12", ["own_templates_resolver", "own_mutable_defaults", "det_resolver", "
      "iteration on resolver paths; constructors forward options and split levels identically; new keys are positions in (membership, old key) order; "
      "fragment dictionaries are only accessed by key; atom names are element + position within the coarse node's atom list",
      "contiguity of blocks; determinism of pysmiles itself is assumed; shared atoms are named once per coarse node they belong to",
-     floors={"DET.shared-state": 15, "OWN.templates-resolver": 10, "OWN.mutable-defaults": 8, "DET.resolver": 15, "SIB.S1-constructors": 9, "PROV.sort-key": 4, "PROV.fragdict-by-key": 2, "PROV.atom-names": 2})
+     floors={"DET.shared-state": 15, "OWN.templates-resolver": 10, "OWN.mutable-defaults": 1, "DET.resolver": 15, "SIB.S1-constructors": 9, "PROV.sort-key": 4, "PROV.fragdict-by-key": 2, "PROV.atom-names": 2})
 prop("C13", ["det_loop_state_tok", "det_shared_state_reader", "tok_rules", "tab_dialects", "tab_fragment_symbols", "ord_parse_pipeline", "sent_annotation_value"],
      "dispatch map and per-branch effects of the tokenizer: T0 text conservation, T1 symbols set the pending order, T2 ring digits go to the previous atom "
      "and clear the pending order, T3 atoms advance (previous := counter; counter += 1) and clear it, annotations under the pre-increment index, T4 "
@@ -269,7 +269,7 @@ prop("C17", ["tt_order_defaults", "own_mutable_defaults_sampler", "prov_sampler_
      "same sequence, unweighted draw only without table; terminal filter truth table; every draw is random.* on ordered populations, seeded on every path "
      "from the seed parameter before any draw; mass = sum over the hydrogen-completed copy",
      "statistical properties; floating point normalisation",
-     floors={"TT.order-defaults": 2, "OWN.mutable-defaults": 2, "PROV.sampler-setup": 7, "DA.self-attrs": 7, "ORD.complete-loops": 1, "DA.sampler": 9, "DET.shared-state": 8, "PROV.stop-rule": 4, "PROV.weights": 3, "TT.terminal-filter": 2, "DET.sampler": 6, "ORD.compute-mass": 3})
+     floors={"TT.order-defaults": 2, "OWN.mutable-defaults": 1, "PROV.sampler-setup": 7, "DA.self-attrs": 7, "ORD.complete-loops": 1, "DA.sampler": 9, "DET.shared-state": 8, "PROV.stop-rule": 4, "PROV.weights": 3, "TT.terminal-filter": 2, "DET.sampler": 6, "ORD.compute-mass": 3})
 prop("C18", ["sent_numeric_attrs", "ord_complete_loops_rdkit", "da_rdkit", "da_globals_rdkit", "key_rdkit", "norm_bead", "tab_bond_types", "prov_rdkit_attrs"],
      "no unresolved global name in rdkit.py / coordinates.py; node keys, RDKit atom indices and counters are never mixed without a map; bead position = "
      "weighted sum over the bead's own atoms / sum of those weights; bond type table; element, charge, hydrogen count and bond order are carried by both conversions",
@@ -279,7 +279,7 @@ prop("C19", ["det_shared_state_layout", "null_guard_layout", "da_layout", "key_l
      "mean bond length = sum of end-point distances over all edges / number of edges; every position multiplied by default_bond / mean; only isometries "
      "may write positions afterwards; the rescaled dict is returned",
      "finiteness, non-coincidence of bonded nodes, independence from labelling: numerical properties of networkx' optimisers",
-     floors={"DET.shared-state": 5, "NULL.optional-param": 1, "DA.layout": 21, "KEY.K3-layout": 2, "OWN.layout-input": 1, "OWN.mutable-defaults": 2, "NORM.scale": 2, "ORD.scale-last": 2})
+     floors={"DET.shared-state": 5, "NULL.optional-param": 1, "DA.layout": 21, "KEY.K3-layout": 2, "OWN.layout-input": 1, "OWN.mutable-defaults": 1, "NORM.scale": 2, "ORD.scale-last": 2})
 prop("C20", ["tok_rules", "ring_marker_text", "da_resolver", "exc_dangling_ring", "sib_ring_handlers", "exc_duplicate_edge", "exc_missing_fragment", "exc_annotations", "exc_handlers", "tab_dialects"],
      "each documented fault has a raise site of the documented type whose guard dominates the success exit; the open-ring table is written only by the two "
      "identical handlers; no handler between fault site and API swallows or retypes the error; numeric keys are declared float",
